@@ -168,8 +168,8 @@ CHECKS["C06"] = {
          "what": "several non-null siblings failing concurrently (fixed outcomes): every schedule incl. preemptions; race check on the shared field set"},
         {"probe": "core", "harness": "Harness_C06_mutationSerial", "setup": "Setup_C06_schedules", "reach": ["c06.serial"], "workers": 6, "race": True,
          "configs_quick": ["single"], "configs_thorough": ["single", "wl1", "follow"],
-         "quick": {"params": {"budget": 1}}, "thorough": {"params": {"budget": 2}, "preempt": 1},
-         "what": "mutation root fields start in document order, each after the previous field's whole sub-selection (spawned resolvers included) has finished, on every schedule"},
+         "quick": {"params": {"budget": 1}}, "thorough": {"params": {"budget": 2, "docs": 1}, "preempt": 1},
+         "what": "mutation root fields start in document order, each after the previous field's whole sub-selection (spawned resolvers included) has finished, on every schedule (quick: also with a root field that is a list of objects; thorough: two deviations and one preemption on the object document, the list document under the tag -list)"},
     ],
 }
 
@@ -671,3 +671,8 @@ CHECKS["C05"]["harnesses"].append(
     {"probe": "core", "harness": "Harness_C05_streamCancel", "setup": "Setup_C05_streamCancel", "reach": ["c05.streamcancel"], "workers": 6, "sched_confirm": True, "native_retries": 300,
      "configs_quick": ["single", "follow"], "configs_thorough": ["single", "follow", "wl2"], "quick": {"sample_models": 8, "sample_every": 3},
      "what": "generated subscription field over a live source (0..2 buffered events, channel never closed by the resolver), k responses taken, then the context cancelled, every select choice: the response function returns nil after at most the buffered events, no task left"})
+CHECKS["C06"]["harnesses"].append(
+    {"probe": "core", "harness": "Harness_C06_mutationSerial", "setup": "Setup_C06_schedules", "reach": ["c06.serial"], "workers": 6, "race": True, "tag": "-list",
+     "configs_quick": ["wl1"], "configs_thorough": ["single", "wl1", "wl2", "follow"],
+     "quick": {"params": {"budget": 1}}, "thorough": {"params": {"budget": 1}},
+     "what": "the same with a mutation root field that is a list of objects with nullable elements (element resolvers on goroutines of their own) before the next root field, one deviation, every schedule, under worker limits 0/1/2 and both layouts"})
